@@ -20,7 +20,7 @@ def budget(tier):
 
 def gen(rng, index, tier):
     nmax = 7 if tier == "quick" else 10
-    raw, meta = lib.gen_dataset(rng, nmax=nmax, mmax=5 if tier == "quick" else 7)
+    raw, meta = lib.gen_dataset(rng, nmax=nmax, mmax=5 if tier == "quick" else 7, big=0.02)
     elems = lib.dataset_elems(raw)
     n = len(elems)
     sch = lib.gen_scheme(rng, max_pairs=len(raw) * n * (n - 1) // 2 + 1)
@@ -148,6 +148,8 @@ def judge(case, out, answers):
         tags.append("has-empty-ranking")
     if case.get("past"):
         tags.append("dataset-with-a-past")
+    if case["meta"].get("big"):
+        tags.append("size:big")
     return {"agree": not diff, "holds": holds, "diff": "; ".join(diff), "nontrivial": nontrivial, "tags": tags}
 
 
